@@ -52,7 +52,7 @@ func scenarios(tier string) []vlib.Scenario {
 	}
 	for _, s := range []string{"none", "up", "down", "up+down"} {
 		for _, pe := range []string{"none", "read", "call", "write", "recvcall"} {
-			for _, f := range []string{"none", "cut", "cutresume"} {
+			for _, f := range []string{"none", "cut", "cutresume", "refused"} {
 				for _, o := range []string{"streams-first", "conn-first", "conn-only"} {
 					add(params{Streams: s, Pending: pe, Failure: f, Order: o})
 				}
@@ -128,6 +128,17 @@ func (w *world) script() *sim.Script {
 			return false, 0 // the redial keeps failing: reconnect in progress when Close arrives
 		}
 		return true, 0
+	}
+	if w.p.Failure == "refused" {
+		// the broker refuses the resume of every stream and also answers their close requests with a failure
+		s.UpResumeResult = func(c *sim.BConn, u *sim.UpStream, attempt int) message.ResultCode { return message.ResultCodeStreamNotFound }
+		s.DownResumeResult = func(c *sim.BConn, d *sim.DownStream, attempt int) message.ResultCode { return message.ResultCodeStreamNotFound }
+		s.UpCloseResult = func(c *sim.BConn, u *sim.UpStream) message.ResultCode {
+			if c.Idx > 0 {
+				return message.ResultCodeStreamNotFound
+			}
+			return message.ResultCodeSucceeded
+		}
 	}
 	s.OnMessage = func(b *sim.Broker, c *sim.BConn, m message.Message) bool {
 		if w.p.Failure == "cutresume" && c.Idx > 0 {
